@@ -50,6 +50,7 @@ type basicTaskBase struct {
 	taskCmd                 *exec.Cmd
 	transitioner            transitioner.Transitioner
 	pendingFinalTaskStateCh chan mesos.TaskState
+	runningTimer            *time.Timer
 }
 
 func (t *basicTaskBase) startBasicTask() (err error) {
@@ -293,7 +294,7 @@ func (t *basicTaskBase) doLaunch(transitionFunc transitioner.DoTransitionFunc) e
 		WithField("level", infologger.IL_Devel).
 		Debug("basic task staged")
 
-	time.AfterFunc(200*time.Millisecond, func() { t.sendStatus(t.knownEnvironmentId, mesos.TASK_RUNNING, "") })
+	t.runningTimer = time.AfterFunc(200*time.Millisecond, func() { t.sendStatus(t.knownEnvironmentId, mesos.TASK_RUNNING, "") })
 
 	return nil
 }
@@ -321,6 +322,10 @@ func (t *basicTaskBase) Kill() error {
 		t.taskCmd = nil
 	}
 
+	if t.runningTimer != nil {
+		// do not report TASK_RUNNING after the terminal status
+		t.runningTimer.Stop()
+	}
 	go t.sendStatus(t.knownEnvironmentId, mesos.TASK_FINISHED, "")
 	return nil
 }
